@@ -326,6 +326,27 @@ def lw(cfg):
     res.ob(not bad, {'rule': 'LW-3', 'fact': 'sections with a lock are only made by try_read_lock / rehydrate_read_lock', 'callers': sorted({sh(f.name) for f, e in cs}), 'verdict': 'discharged' if not bad else 'VIOLATION'})
     for f, e in bad:
         res.find(f, e.get('loc'), 'a read section is constructed directly from a lock and a version outside try_read_lock / rehydrate_read_lock: nothing guarantees the recorded word is a free word', key='LW-3:rcs-ctor', config=cfg.name)
+    # rehydrate: the section records the saved word bit for bit (a saved word is a FREE word; or-ing live state bits of the
+    # lock into it can make it equal the obsolete constant, and the section then validates on a retired node)
+    for (f, e) in cs:
+        if not (f.cls == OL and f.short == 'rehydrate_read_lock' and f.params and len(e.get('args', [])) >= 2):
+            continue
+        res.count('LW-3 sites')
+        x = f.strip_casts(e['args'][1])
+        from ..wsum import const_inits as _ci
+        once_ = _ci(f)
+        for _ in range(4):
+            x = f.resolve(x) if isinstance(x, dict) else x
+            if isinstance(x, dict) and x.get('k') == 'call' and x.get('ck') == 'ctor' and len(x.get('args', [])) == 1:
+                x = f.strip_casts(x['args'][0])
+            elif isinstance(x, dict) and x.get('k') == 'initlist' and len(x.get('args', [])) == 1:
+                x = f.strip_casts(x['args'][0])
+            elif isinstance(x, dict) and x.get('k') == 'ref' and x.get('vk') == 'local' and x.get('did') in once_:
+                x = f.strip_casts(once_[x['did']])
+        okp = isinstance(x, dict) and x.get('k') == 'ref' and x.get('vk') == 'param' and x.get('did') == f.params[0]['did']
+        res.ob(okp, {'rule': 'LW-3', 'function': sh(f.sig), 'fact': 'the rehydrated section records exactly the version it was given', 'verdict': 'discharged' if okp else 'VIOLATION'})
+        if not okp:
+            res.find(f, e.get('loc'), 'rehydrate_read_lock builds the section from something else than the saved version it was given (the word is modified on the way): a saved word is a free word, and a word with live state bits of the lock mixed in can equal what the lock holds after it was made obsolete (obsolete is the constant 1: a tag of 0 with the obsolete bit or-ed in) - the section then passes its check on a retired node', key='LW-3:rehydrate-word', config=cfg.name)
     # rehydrate: the version argument flows only from read_critical_section::get()
     for (f, e) in cfg.callers_of(lambda s: s.startswith(OL + '::rehydrate_read_lock(')):
         res.count('rehydrate call sites')
